@@ -674,7 +674,7 @@ def main(argv):
                        'gpu_split_partition: grid and work-group dimensions >= 1, work-group count < 2^32, at least one CU in total',
                        'GPU-count independence of whole workloads is sampled (fir, matrixtranspose, atax with -verify), not proved']
     thorough = vlib.tier() == 'thorough'
-    n_rdma = 3000 if thorough else 320
+    n_rdma = 3000 if thorough else 260
     n_drv = 4000 if thorough else 400
 
     replay_file = argv[argv.index('--replay') + 1] if '--replay' in argv else None
